@@ -46,7 +46,7 @@ Statement::~Statement()
 const Statement *Statement::execute(Context& ctx) const
 {
   bool trace = ctx.trace();
-  _level = ctx.execLevel();
+  _level.store(ctx.execLevel(), std::memory_order_relaxed);
   if (trace) trace_pre(ctx);
   const Statement * next = doit(ctx);
   if (trace) trace_post(ctx);
